@@ -125,9 +125,92 @@ def _kv_pool(corpus):
         elif isinstance(d, list):
             for v in d:
                 walk(v)
+    freq = {}
     for _, doc, _ in corpus:
+        before = set(pool)
+        seen = set()
+
+        def keys(d):
+            if isinstance(d, dict):
+                for k, v in d.items():
+                    if isinstance(k, str):
+                        seen.add(k)
+                    keys(v)
+            elif isinstance(d, list):
+                for v in d:
+                    keys(v)
+        keys(doc)
+        for k in seen:
+            freq[k] = freq.get(k, 0) + 1
         walk(doc)
-    return sorted(pool.items())
+    # keys that occur in several documents are words of the language
+    # (type, join, retry, requires, ...); names of tasks and variables occur
+    # in one or two.  The language words come first.
+    words = sorted(k for k in pool if freq.get(k, 0) >= 3)
+    rest = sorted(k for k in pool if freq.get(k, 0) < 3)
+    return [(k, pool[k]) for k in words] + [('', None)] + \
+        [(k, pool[k]) for k in rest]
+
+
+_SCHEMA_WORDS = []
+
+
+def schema_words():
+    """Property names of the language with type-valid sample values, read
+    from the jsonschema fragments of the specification classes (every class
+    attribute of mistral.lang.v2.* that looks like a schema)."""
+    if _SCHEMA_WORDS:
+        return _SCHEMA_WORDS
+    import importlib
+    import inspect
+    import pkgutil
+    import mistral.lang.v2 as v2
+    props = {}
+
+    def note(e, x, depth=0):
+        if not isinstance(x, dict) or depth > 4:
+            return
+        for m in x.get('enum') or []:
+            if isinstance(m, (str, int, bool)):
+                e['enum'].add(m)
+        if isinstance(x.get('type'), str):
+            e['types'].add(x['type'])
+        for kk in ('oneOf', 'anyOf', 'allOf'):
+            for y in x.get(kk) or []:
+                note(e, y, depth + 1)
+
+    def harvest(schema, depth=0):
+        if not isinstance(schema, dict) or depth > 6:
+            return
+        for k, v in (schema.get('properties') or {}).items():
+            note(props.setdefault(k, {'enum': set(), 'types': set()}), v)
+            harvest(v, depth + 1)
+        for kk in ('oneOf', 'anyOf', 'allOf'):
+            for y in schema.get(kk) or []:
+                harvest(y, depth + 1)
+        for y in (schema.get('patternProperties') or {}).values():
+            harvest(y, depth + 1)
+        if isinstance(schema.get('items'), dict):
+            harvest(schema['items'], depth + 1)
+    for m in pkgutil.iter_modules(v2.__path__):
+        mod = importlib.import_module('mistral.lang.v2.' + m.name)
+        for _, c in inspect.getmembers(mod, inspect.isclass):
+            for attr in dir(c):
+                if attr.endswith('schema'):
+                    sc = getattr(c, attr, None)
+                    if isinstance(sc, dict):
+                        harvest(sc)
+    samples = {'string': ['x', 'std.noop', '<% $.a %>', 'direct', 'all'],
+               'integer': [0, 1, 3], 'number': [1.5], 'boolean': [True,
+                                                                   False],
+               'object': [{}, {'a': 1}], 'array': [[], ['a']],
+               'null': [None]}
+    for k in sorted(props):
+        vals = sorted(props[k]['enum'], key=str)
+        for t in sorted(props[k]['types']):
+            vals += samples.get(t, [])
+        _SCHEMA_WORDS.append((k, vals or ['x']))
+    return _SCHEMA_WORDS
 
 
 def inline_string(rng):
@@ -169,7 +252,8 @@ def mutate(rng, doc, pool=None):
     op = rng.choice(['replace', 'replace', 'replace', 'drop', 'rename',
                      'dup', 'wrap-list', 'wrap-dict', 'deep', 'text',
                      'odd-member', 'inline+input', 'transplant',
-                     'transplant', 'inline-list'])
+                     'transplant', 'transplant', 'inline-list',
+                     'schema-key', 'schema-key'])
     try:
         if op == 'odd-member':
             # a member of a named collection gets an odd name and / or a
@@ -198,9 +282,38 @@ def mutate(rng, doc, pool=None):
                 op = 'replace'
         if op == 'transplant':
             dicts = [q for q in ps if isinstance(get_at(d, q), dict)]
+            tdicts = [q for q in dicts if 'action' in get_at(d, q) or
+                      'workflow' in get_at(d, q) or 'tasks' in get_at(d, q)]
             if pool and dicts:
-                path = rng.choice(dicts)
-                k, vals = rng.choice(pool)
+                path = rng.choice(tdicts if tdicts and rng.random() < 0.6
+                                  else dicts)
+                cut = [i for i, kv in enumerate(pool) if kv[0] == ''][0]
+                words, rest = pool[:cut], pool[cut + 1:]
+                src = words if words and rng.random() < 0.85 else \
+                    (rest or words)
+                scalars = [(k, [v for v in vals
+                                if isinstance(v, (str, bool, int))])
+                           for k, vals in src]
+                scalars = [(k, vs) for k, vs in scalars if vs]
+                k, vals = rng.choice(scalars if scalars and
+                                     rng.random() < 0.7 else src)
+                get_at(d, path)[k] = copy.deepcopy(rng.choice(vals))
+            else:
+                op = 'replace'
+        if op == 'schema-key':
+            # a word of the language with a value its schema allows,
+            # somewhere the author of the schema may not have expected it
+            dicts = [q for q in ps if isinstance(get_at(d, q), dict)]
+            tdicts = [q for q in dicts if 'action' in get_at(d, q) or
+                      'workflow' in get_at(d, q) or 'tasks' in get_at(d, q)]
+            try:
+                words = schema_words()
+            except Exception:
+                words = []
+            if words and dicts:
+                path = rng.choice(tdicts if tdicts and rng.random() < 0.6
+                                  else dicts)
+                k, vals = rng.choice(words)
                 get_at(d, path)[k] = copy.deepcopy(rng.choice(vals))
             else:
                 op = 'replace'
@@ -241,7 +354,7 @@ def mutate(rng, doc, pool=None):
                 v = [v] if rng.random() < 0.5 else {'k': v}
             d = set_at(d, path, v)
         elif op in ('odd-member', 'inline+input', 'transplant',
-                    'inline-list'):
+                    'inline-list', 'schema-key'):
             pass
         else:
             op = 'text'
@@ -513,6 +626,8 @@ def _run_items(case, out_file, crumb_file, start=0, skip=(), only=None,
     if os.path.exists(out_file):
         res = json.load(open(out_file))
         res.pop('done', None)
+    import mistral
+    res['code'] = os.path.dirname(os.path.dirname(mistral.__file__))
     items = _plan(case)
     parsers = {'wf': sp.get_workflow_list_spec_from_yaml,
                'wb': sp.get_workbook_spec_from_yaml,
@@ -529,14 +644,39 @@ def _run_items(case, out_file, crumb_file, start=0, skip=(), only=None,
                                'text': it['text'][:1500]})
             faulthandler.dump_traceback_later(hang_s, exit=True)
             res['monitor_evaluations']['hang-watchdog'] += 1
-            if it['phase'] == 'parser':
-                _parser_item(it, res, parsers, sp, safe_yaml, wf_service,
-                             wb_service, auth_context, boot)
-            else:
-                if R is None:
-                    from mvf import rest as rest_mod
-                    R = rest_mod.Rest()
-                _rest_item(it, res, R)
+            try:
+                if it['phase'] == 'parser':
+                    _parser_item(it, res, parsers, sp, safe_yaml,
+                                 wf_service, wb_service, auth_context, boot)
+                else:
+                    if R is None:
+                        from mvf import rest as rest_mod
+                        R = rest_mod.Rest()
+                    _rest_item(it, res, R)
+            except Exception as e:
+                # outside classify(): the definition was accepted and then
+                # reading it back through the public getters / slicing it
+                # failed.  An exception raised inside mistral is a verdict
+                # on the definition ("accepted definitions are stable");
+                # anything else is a harness error.
+                import traceback
+                tb = traceback.extract_tb(e.__traceback__)
+                inside = [f for f in tb if '/mistral/' in f.filename]
+                if inside:
+                    res['violations'].append({
+                        'prop': 'C14', 'monitor': 'spec-round-trip',
+                        'mech': 'accepted-definition-unusable-%s-at-%s' % (
+                            type(e).__name__, inside[-1].name),
+                        'seed_doc': it['name'], 'op': it['op'],
+                        'text': it['text'][:1500],
+                        'msg': 'an accepted definition cannot be read back: '
+                               '%s: %s at %s:%s' % (
+                                   type(e).__name__, str(e)[:200],
+                                   inside[-1].filename.split('/')[-1],
+                                   inside[-1].name)})
+                else:
+                    res['inconclusive'] = 'harness error: ' + \
+                        traceback.format_exc()[-1200:]
             faulthandler.cancel_dump_traceback_later()
             _dump(out_file, res)
     finally:
@@ -694,6 +834,11 @@ def run_case(case):
                 rc, tail[-500:])
             break
         crumb = json.load(open(crumb_file))
+        if 'Timeout (' not in (tail or '') and rc != 'timeout':
+            # not the watchdog: the child crashed
+            note = 'child crashed (rc=%s) on item %s: %s' % (
+                rc, crumb.get('idx'), (tail or '')[-600:])
+            break
         fired += 1
         iso_out = os.path.join(d, 'iso%d.json' % attempt)
         iso_crumb = os.path.join(d, 'isoc%d.json' % attempt)
@@ -701,6 +846,11 @@ def run_case(case):
                                   crumb['idx'], HANG_ISOLATED_S,
                                   HANG_ISOLATED_S + 120)
         iso = json.load(open(iso_out)) if os.path.exists(iso_out) else {}
+        if rc2 != 0 and 'Timeout (' not in (tail2 or '') and \
+                rc2 != 'timeout':
+            note = 'isolated re-run crashed (rc=%s): %s' % (
+                rc2, (tail2 or '')[-600:])
+            break
         if rc2 == 0 and iso.get('done'):
             slow += 1
             # its verdicts count, from the isolated run
